@@ -3,7 +3,9 @@
    core/running_event_filter.go), on top of the state part modelled in C03.
 
    Index families (one sorted bucket each, keys as in C03):
-     n_st      the state buckets and history logs of C03 (chain height = s_next - 1)
+     n_st      the state buckets and history logs of C03 (chain height = s_next - 1); the class table s_decl holds
+               every class a block registered: the declared ones and the ones DELIVERED for its deployed contracts
+               (d_deliv), which State.Revert removes again since juno commit 007ff78 (C03.Model rm_classes)
      n_hdr     [n]      -> block hash            (BlockHeadersByNumber; the header is identified by its hash)
      n_num     [hash]   -> n                     (BlockHeaderNumbersByHash)
      n_txs     [n]      -> transactions+receipts blob, as the list of (tx hash, L1 message hash option)
@@ -107,6 +109,10 @@ Definition store_new_node := store_node store_new.
 Definition store_old_node := store_node store_old.
 Definition revert_new_node := revert_node revert_new.
 Definition revert_old_node := revert_node revert_old.
+(* RevertHead as it was before juno commit 007ff78 (State.Revert walked the declared class lists only); used by no
+   theorem, only by the witness C04_revert_before_fix_refuted *)
+Definition revert_new_node_before_007ff78 := revert_node revert_new_before_007ff78.
+Definition revert_old_node_before_007ff78 := revert_node revert_old_before_007ff78.
 
 (* everything an observer can ask for: all index families, the state buckets included *)
 Definition obs (x : node) :=
